@@ -9,6 +9,11 @@ class SimError(Exception):
     """The harness itself is in an impossible state (reported as exit 2, never a violation)."""
 
 
+# iterations of the simulator's schedulers (both back ends), read by the per-case guard in
+# vlib.core: a counter that stands still while the process burns CPU means a frozen scheduler
+TICKS = [0]
+
+
 class SpinError(Exception):
     """The event loop ran an excessive number of iterations without virtual time advancing."""
 
